@@ -239,6 +239,12 @@ JanetSlot cl_value_stub(JanetFopts opts, Janet x) {
     cl_value_calls++;
     return s;
 }
+/* KNOWN FINDING (-DCL_MUTATION_ORDER): the slot handed on for form k must still denote the value form k had when it was
+ * evaluated. In a function of its own so that the obligation name cl_check_mutation_order.assertion.1 is stable. */
+static void cl_check_mutation_order(JanetSlot s, int32_t g) {
+    __CPROVER_assert(!(cl_mut_write_at > cl_mut_alias_at && g == cl_mut_alias_at && s.index == 77),
+                     "comp.call.mutation-order: an argument that reads a mutable variable is not affected by an assignment in a LATER argument (left-to-right evaluation): its slot is not the variable's own register");
+}
 void h_toslots(void) {
     cl_init(); cl_value_calls = 0;
     static Janet vals[CL_MAXN];
@@ -253,9 +259,7 @@ void h_toslots(void) {
 #ifndef CL_MUTATION_ORDER
     __CPROVER_assert(r[g].index == 1000 + g, "comp.call: slot k of the vector is the value of form k");
 #else
-    /* the slot handed on for form k must still denote the value form k had when it was evaluated */
-    __CPROVER_assert(!(cl_mut_write_at > cl_mut_alias_at && g == cl_mut_alias_at && r[g].index == 77),
-                     "comp.call: an argument that reads a mutable variable is not affected by an assignment in a LATER argument (left-to-right evaluation)");
+    cl_check_mutation_order(r[g], g);
     if (cl_mut_write_at > 0) REACH("toslots: later argument assigns an earlier one's variable");
 #endif
     if (len == CL_MAXN) REACH("toslots: longest form");
